@@ -25,14 +25,14 @@ CHECKS = {
  "C04": dict(
    engine="E2-fleet",
    category="exploration",
-   text="Seeded histories (5-25 operations) over 2-4 real child interpreters with distinct PYTHONHASHSEED / heap / allocation history (ASLR off): build, independent rebuild, reflective single-field mutation (fields, wrapped data, numpy scalar constants, operations inside scalar expressions, callee kernels of loopy units), per-graph field sweeps (one mutant per (node kind, field) signature present), mapping reorder, API round trip and API derivation from objects that already carry caches, hash forcing, loopy code generation, pickle, unpickle in the same / another / a crashed-and-restarted interpreter, deepcopy, junk allocation, and CHURN (build, compare, key and discard transient graphs with new wrapped data every round, so that addresses are reused while earlier state is still around). A fifth of the interpreters run python -O. After the steps of every history each interpreter checks, over all pairs of its live objects: == agrees with the reflective structure walker; == implies equal hash and set/dict membership; symmetry, reflexivity, != consistency, sampled transitivity; no _hash_value on freshly unpickled/copied nodes; hashing adds no picklable state; the orchestrator checks that the canonical form survives every cross-process round trip. Sampling: evidence for the sampled histories, node kinds and (node kind, field) pairs it lists, not a proof.",
+   text="Seeded histories (5-25 operations) over 2-4 real child interpreters with distinct PYTHONHASHSEED / heap / allocation history (ASLR off): build, independent rebuild, reflective single-field mutation (fields, wrapped data, numpy scalar constants, operations inside scalar expressions, callee kernels of loopy units), per-graph field sweeps (one mutant per (node kind, field) signature present), mapping reorder, API round trip and API derivation from objects that already carry caches, hash forcing, loopy code generation and nine other read-only consumers of the same objects (drawing, analyses, mappers, the Python target), pickle, unpickle in the same / another / a crashed-and-restarted interpreter, deepcopy, junk allocation, and CHURN (build, compare, key and discard transient graphs with new wrapped data every round, so that addresses are reused while earlier state is still around). A fifth of the interpreters run python -O. After the steps of every history each interpreter checks, over all pairs of its live objects: == agrees with the reflective structure walker; == implies equal hash and set/dict membership; symmetry, reflexivity, != consistency, sampled transitivity; no _hash_value on freshly unpickled/copied nodes; hashing adds no picklable state; the orchestrator checks that the canonical form survives every cross-process round trip. Sampling: evidence for the sampled histories, node kinds and (node kind, field) pairs it lists, not a proof.",
    design_ref="DESIGN.md sections 3, 4, 5 (C04)",
    note="Trusted: the reflective walker's canonical form as the definition of 'same structure' (dataclass fields except non_equality_tags; DataWrapper by identity); setarch -R + PYTHONHASHSEED + heap prelude give distinct, reproducible interpreters; the single-field half (orig vs mutant) has no history dimension and is reported under its own counters.",
    technique="deterministic simulation of an interpreter population: seeded operation histories with crash/restart and pickle transfer, congruence oracle after each history, minimised replay files"),
  "C08": dict(
    engine="E1-SimMPI",
    category="exploration",
-   text="Seeded search over (multi-rank program, message/part schedule, legal MPI perturbation) triples: every run executes the real find_distributed_partition / verify / number_distributed_tags / execute_distributed_partition on 1-4 simulated ranks under a scheduler that owns every interleaving (delivery order and delay, Waitsome subsets and order, eager vs rendezvous sends with late buffer reads, poisoned receive buffers, stalled ranks, PCT priorities, back-to-back re-execution). Invariants during the run (no exception, deadlock, livelock, poison read, size mismatch) and over the history (outputs equal the recipe-level NumPy evaluation of the global data flow exactly; exactly-once message accounting; bounded liveness). About 2500 runs per quick run use PROCESS ACTORS (one child interpreter per rank with its own hash seed/heap, a proxy thread per rank inside the same kernel), because ranks exchange pickles. The transport carries memory images and rejects non-contiguous buffers as mpi4py does; user inputs are sometimes Fortran-ordered or come with unused extras; programs include calls to hand-written loopy kernels; every third process-actor group runs python -O. Plus a bounded exhaustive stratum: for small programs (<=3 ranks, <=3 messages) ALL schedules (delivery / send-completion / wake-up orders, every Waitsome subset, eager and rendezvous) are enumerated depth-first. Sampling, not proof, beyond that stratum: a clean batch is evidence for the sampled space (ranks<=4, comm ops<=6).",
+   text="Seeded search over (multi-rank program, message/part schedule, legal MPI perturbation) triples: every run executes the real find_distributed_partition / verify / number_distributed_tags / execute_distributed_partition on 1-4 simulated ranks under a scheduler that owns every interleaving (delivery order and delay, Waitsome subsets and order, eager vs rendezvous sends with late buffer reads, poisoned receive buffers, stalled ranks, PCT priorities, back-to-back re-execution). Invariants during the run (no exception, deadlock, livelock, poison read, size mismatch) and over the history (outputs equal the recipe-level NumPy evaluation of the global data flow exactly; exactly-once message accounting; bounded liveness). About 2500 runs per quick run use PROCESS ACTORS (one child interpreter per rank with its own hash seed/heap, a proxy thread per rank inside the same kernel), because ranks exchange pickles. The transport carries memory images and rejects non-contiguous buffers as mpi4py does; user inputs are sometimes Fortran-ordered or come with unused extras; programs include calls to hand-written loopy kernels and sparse CSR products whose component arrays arrive from other ranks; every third process-actor group runs python -O. Plus a bounded exhaustive stratum: for small programs (<=3 ranks, <=3 messages) ALL schedules (delivery / send-completion / wake-up orders, every Waitsome subset, eager and rendezvous) are enumerated depth-first. Sampling, not proof, beyond that stratum: a clean batch is evidence for the sampled space (ranks<=4, comm ops<=6).",
    design_ref="DESIGN.md sections 2, 4, 5 (C08), 10",
    note="Trusted: the SimMPI kernel implements MPI matching/completion semantics for the subset pytato uses (Isend/Irecv/Waitsome/Wait, pickle-based collectives); the recipe-level NumPy oracle and RefEval (cross-checked against each other on 1 run in 8); numerical execution of a part is RefEval on the part's expressions, not the compiled kernel (generate_loopy is run for its exceptions on sampled runs, with a communication-free control compile to tell partition-induced failures from code generation's own; on a small sample the real kernels are also executed through loopy's C target + gcc next to the stub, as evidence only).",
    technique="deterministic simulation: seeded schedule + perturbation search on a simulated MPI (plus exhaustive schedule enumeration for small instances), reference-model oracle, minimised replay files"),
